@@ -291,7 +291,7 @@ func (w *World) userObs(u *User, now time.Time) UserObs {
 	if u.TOTPLastCode != "" {
 		o.TotpLast = -1
 		for i := range w.ts {
-			for which := 1; which <= 3; which++ {
+			for _, which := range []int{1, 3} {
 				if w.totpCodeAt(i+1, which) == u.TOTPLastCode {
 					o.TotpLast = (i+1)*10 + which
 				}
@@ -430,7 +430,10 @@ func (w *World) Project() Obs {
 // (otherwise the three reference codes are no longer the valid ones and the
 // scenario is re-run).
 func (w *World) SamePeriod() bool {
-	return w.T0.Unix()/30 == time.Now().Unix()/30
+	// codes 1 (period of T0) and 3 (next period) stay valid across one
+	// boundary (totp.Validate allows one period of skew either way); code 2
+	// (previous period) is never generated.
+	return time.Now().Unix()/30-w.T0.Unix()/30 <= 1
 }
 
 // rebaseSMS rewrites every session's sms_last so that its age is exactly the
